@@ -243,6 +243,9 @@ class Cover(Device):
         elif position > current_position:
             self.updown.down()
         else:
+            if self.is_traveling() and self.supports_stop:
+                # passing the requested position right now - halt there
+                await self.stop()
             return  # already in position
         self._start_position_update(target_position=position)
         if self.supports_stop:
